@@ -507,6 +507,20 @@ func (in *Interp) lock(g *goroutine, p *value, write bool) {
 	}
 	l := in.lockOf(p)
 	in.preemptPoint(g)
+	if in.accessLog && in.role != "" {
+		mode := "R"
+		if write {
+			mode = "W"
+		}
+		for h, hm := range g.held {
+			if h != l {
+				key := in.role + "|" + h.name + ":" + hm + "->" + l.name + ":" + mode
+				if _, ok := in.w.lockEdges[key]; !ok {
+					in.w.lockEdges[key] = &lockEdge{Role: in.role, Held: h.name, HeldMode: hm, Want: l.name, WantMode: mode}
+				}
+			}
+		}
+	}
 	if write {
 		if !(l.writer == nil && len(l.readers) == 0) {
 			in.block(g, fmt.Sprintf("Lock(mutex %d)", l.id), func() bool { return l.writer == nil && len(l.readers) == 0 })
@@ -552,4 +566,36 @@ func (in *Interp) unlock(g *goroutine, p *value, write bool) {
 			delete(h.held, l)
 		}
 	}
+}
+
+type lockEdge struct {
+	Role, Held, HeldMode, Want, WantMode string
+}
+
+// lockCycles: two roles of different groups acquiring two mutexes in opposite order where each
+// wanted mode conflicts with the other's held mode (a write on either side).
+func lockCycles(edges []*lockEdge) []string {
+	var out []string
+	seen := map[string]bool{}
+	for _, a := range edges {
+		for _, b := range edges {
+			if roleGroup(a.Role) == roleGroup(b.Role) || a.Held != b.Want || a.Want != b.Held {
+				continue
+			}
+			conflict := func(want, held string) bool { return want == "W" || held == "W" }
+			if !(conflict(a.WantMode, b.HeldMode) && conflict(b.WantMode, a.HeldMode)) {
+				continue
+			}
+			k := a.Held + "<->" + a.Want
+			if a.Want < a.Held {
+				k = a.Want + "<->" + a.Held
+			}
+			if seen[k] {
+				continue
+			}
+			seen[k] = true
+			out = append(out, fmt.Sprintf("%s holds %s(%s) wants %s(%s); %s holds %s(%s) wants %s(%s)", a.Role, a.Held, a.HeldMode, a.Want, a.WantMode, b.Role, b.Held, b.HeldMode, b.Want, b.WantMode))
+		}
+	}
+	return out
 }
